@@ -203,6 +203,9 @@ func genHistory(t *rapid.T, maxLen int, garbageCtl bool) hCase {
 				op = "greet"
 			case !txn:
 				op = "mail"
+				if c.Cfg.BinaryMIME && rapid.IntRange(0, 4).Draw(t, "binary_mail") == 0 {
+					op = "mail-binary"
+				}
 			case nr == 0 || (nr < 3 && rapid.IntRange(0, 2).Draw(t, "more_rcpt") == 0):
 				op = "rcpt"
 			case chunked:
@@ -227,7 +230,7 @@ func genHistory(t *rapid.T, maxLen int, garbageCtl bool) hCase {
 			if !c.Cfg.LMTP {
 				greeted, txn, nr, chunked = true, false, 0, false
 			}
-		case "mail":
+		case "mail", "mail-binary":
 			txn = greeted
 		case "rcpt":
 			if txn && !chunked {
@@ -745,6 +748,9 @@ func (m *monitor) step(s stepRec) string {
 			m.txn, m.binary = true, cmd.Op == "mail-binary"
 		} else {
 			m.classes["mail_rejected"] = true
+			if cmd.Op == "mail-binary" {
+				m.classes["binary_mail_rejected"] = true
+			}
 		}
 		return ""
 	case "rcpt-bad":
